@@ -51,6 +51,7 @@ def measure(c, stats):
 def oracle(c):
     """the same run with and without the inspection calls: snapshots, step results and the full views at the end"""
     fails = []
+    g0 = implmod.GLOBAL_BASELINE
     a, b = implmod.Impl(), implmod.Impl()
     toy = c.lines and c.lines[0].startswith("toy")
     for l in c.lines:
@@ -65,6 +66,12 @@ def oracle(c):
             return fails
         if oa.startswith("F") or oa.startswith("X"):
             break
+    if implmod.global_fingerprint() != g0:
+        return [Failure("oracle", PROP, "an inspection call changed a module/class-level table of the simulator (shared by every simulation in the process)", "insp:mutates-global-table")]
+    da = implmod.deep_state(a.toy if toy else a.sim)
+    db = implmod.deep_state(b.toy if toy else b.sim)
+    if da != db:
+        return [Failure("oracle", PROP, "the object graphs of the run with and the run without inspection calls differ (hidden state changed by a getter)", "insp:hidden-state")]
     try:
         va = a.toy_views(63) if toy else (a.sim_views((1 << 13) - 1) if a.sim is not None else [])
         vb = b.toy_views(63) if toy else (b.sim_views((1 << 13) - 1) if b.sim is not None else [])
